@@ -2,7 +2,9 @@ package main
 
 import (
 	"fmt"
+	"sort"
 	"strings"
+	"verif/harness/internal/proto"
 
 	"github.com/casbin/casbin/v2"
 
@@ -17,7 +19,7 @@ func runC19(c *Ctx) {
 		depth = 4
 	}
 	c.Exhaustive = true
-	c.Rule = fmt.Sprintf("all operation logs of <= %d *Self calls (Add/Remove/RemoveFiltered/Update/UpdatePolicies/Clear on p and g, with repeated and overlapping batches) applied to three real DistributedEnforcer replicas with different persist predicates (always / never / nil), each with its own recording adapter: affected values, adapter logs, listed rules, links and decisions vs the Lean model; on the implementation: after every log each of its operations is applied twice in a row to each replica (the second application must change nothing and report nothing affected), replicas agree on affected values, rules, links and decisions, only the always-replica touches its adapter, every log is run 3 times per replica for determinism, the third time with a dispatcher attached (which must receive nothing); updates of a rule to itself must leave the replica's memory (index included) unchanged; the second run is on a replica whose role manager was installed by SetRoleManager; a replica loaded under subject priority (rules re-ordered by the load) must find every rule by value; grouping rules with a column beyond the definition in the alphabet; on a domain model with a domain matching function a replica that joins from the persisting replica's storage must decide like the replicas that applied the log; plus seeded random logs to length 30; non-trivial = a log with an affected and an unaffected call; distinct = log", depth)
+	c.Rule = fmt.Sprintf("all operation logs of <= %d *Self calls (Add/Remove/RemoveFiltered/Update/UpdatePolicies/Clear on p and g, with repeated and overlapping batches) applied to three real DistributedEnforcer replicas with different persist predicates (always / never / nil), each with its own recording adapter: affected values, adapter logs, listed rules, links and decisions vs the Lean model; on the implementation: after every log each of its operations is applied twice in a row to each replica (the second application must change nothing and report nothing affected), the affected list of every add / remove / filtered-remove call equals the difference of the listings before and after it, replicas agree on affected values, rules, links and decisions, only the always-replica touches its adapter, every log is run 3 times per replica for determinism, the third time with a dispatcher attached (which must receive nothing); updates of a rule to itself must leave the replica's memory (index included) unchanged; the second run is on a replica whose role manager was installed by SetRoleManager; a replica loaded under subject priority (rules re-ordered by the load) must find every rule by value; grouping rules with a column beyond the definition in the alphabet; on a domain model with a domain matching function a replica that joins from the persisting replica's storage must decide like the replicas that applied the log; 16 replicas applying one log with two pattern domains that both cover a concrete domain created last must agree (and the concrete domain inherits from both); plus seeded random logs to length 30; non-trivial = a log with an affected and an unaffected call; distinct = log", depth)
 	P := [][]string{{"alice", "data1", "read"}, {"admin", "data2", "write"}, {"bob", "data1", "read"}}
 	G := [][]string{{"alice", "admin"}, {"bob", "admin"}}
 	mkAlpha := func(per string) []EOp {
@@ -66,8 +68,36 @@ func runC19(c *Ctx) {
 			var affLog []string
 			affected, unaffected := false, false
 			for _, i := range idx {
+				var listedBefore [][]string
+				if ast := s.E.GetModel()[alpha[i].Sec][alpha[i].PType]; ast != nil {
+					listedBefore = cloneRules(ast.Policy)
+				}
 				obs := s.Do(c, alpha[i])
 				affLog = append(affLog, obs)
+				// "report as affected exactly the rules they added or removed": the reported list against the
+				// difference of the listings before and after the call
+				if k := alpha[i].Kind; (k == "dist-add" || k == "dist-rm" || k == "dist-rmf") && strings.HasSuffix(obs, " E 0") {
+					listedAfter := s.E.GetModel()[alpha[i].Sec][alpha[i].PType].Policy
+					from, to := listedAfter, listedBefore // rules gained
+					if k != "dist-add" {
+						from, to = listedBefore, listedAfter // rules lost
+					}
+					had := map[string]bool{}
+					for _, r := range to {
+						had[strings.Join(r, "\x00")] = true
+					}
+					var diff [][]string
+					for _, r := range from {
+						if !had[strings.Join(r, "\x00")] {
+							diff = append(diff, r)
+						}
+					}
+					want := fmt.Sprintf("A %s E 0", proto.EncRules(diff))
+					if sortedAff(obs) != sortedAff(want) {
+						c.Direct("a Self operation reports as affected something else than the rules it added or removed", fmt.Sprintf("persist=%s op=%s\nreported: %s\nlisting changed by: %s\nlisted before: %v\nlisted after:  %v", per, alpha[i].Line(), obs, want, listedBefore, listedAfter))
+					}
+					c.Count("affected_vs_listing_checks", 1)
+				}
 				if strings.Contains(obs, "A -") || strings.HasPrefix(obs, "false") {
 					unaffected = true
 				} else {
@@ -177,6 +207,7 @@ func runC19(c *Ctx) {
 	}
 	c19SubjectPriorityReplica(c)
 	c19JoinedReplica(c)
+	c19OverlappingPatternDomains(c)
 }
 
 func pickOps(alpha []EOp, idx []int) []EOp {
@@ -329,4 +360,64 @@ func c19JoinedReplica(c *Ctx) {
 			c.Direct("a replica that joins from the persisting replica's storage decides differently from the replicas that applied the log", fmt.Sprintf("domain matching function keyMatch; log #%d %v\nlisted g=%v\npersisting replica %s\nmemory replica     %s\njoined replica     %s", li, log, gp, a, b, j))
 		}
 	}
+}
+
+// c19OverlappingPatternDomains: two pattern domains that both cover one concrete domain ("*" and
+// "tenant*"), grouping rules in both, and only then the first grouping rule of the concrete domain: the new
+// domain inherits from every pattern domain that covers it, on every replica alike (the order in which a
+// replica's internal maps are walked must not show).  16 replicas apply the same log.
+func c19OverlappingPatternDomains(c *Ctx) {
+	ms := rbacSpec(true, false)
+	logs := [][][][]string{
+		{{{"p", "admin", "tenant1", "data1", "read"}}, {{"g", "bob", "admin", "*"}}, {{"g", "alice", "admin", "tenant*"}}, {{"g", "carol", "admin", "tenant1"}}},
+		{{{"p", "admin", "tenant1", "data1", "read"}}, {{"g", "alice", "admin", "tenant*"}, {"g", "bob", "admin", "*"}, {"g", "dave", "admin", "t*"}}, {{"g", "carol", "other", "tenant1"}}},
+	}
+	users := []string{"alice", "bob", "carol", "dave"}
+	for li, log := range logs {
+		want := ""
+		for ri := 0; ri < 16; ri++ {
+			d := newDist(ms)
+			d.E.AddNamedDomainMatchingFunc("g", "keyMatch", matchFns["keyMatch"])
+			for _, batch := range log {
+				sec := batch[0][0]
+				var rules [][]string
+				for _, r := range batch {
+					rules = append(rules, append([]string(nil), r[1:]...))
+				}
+				if _, err := d.D.AddPoliciesSelf(func() bool { return false }, sec, sec, rules); err != nil {
+					c.Direct("a Self operation of the overlapping-pattern-domain log failed", fmt.Sprintf("log #%d batch %v: %v", li, batch, err))
+				}
+			}
+			var sb strings.Builder
+			for _, u := range users {
+				ok, err := d.E.Enforce(u, "tenant1", "data1", "read")
+				fmt.Fprintf(&sb, "%s=%v/%v ", u, ok, err != nil)
+			}
+			got := sb.String()
+			c.Evals++
+			c.Count("overlapping_pattern_domain_replicas", 1)
+			if ri == 0 {
+				want = got
+				// every user linked to admin in a domain that covers tenant1 is allowed there
+				for _, batch := range log {
+					for _, r := range batch {
+						if r[0] == "g" && r[2] == "admin" && !strings.Contains(got, r[1]+"=true/false") {
+							c.Direct("a concrete domain did not inherit the links of a pattern domain that covers it", fmt.Sprintf("log #%d: %v\ndecisions on tenant1: %s", li, log, got))
+						}
+					}
+				}
+			} else if got != want {
+				c.Direct("replicas that applied the same operation log decide differently", fmt.Sprintf("log #%d: %v\nreplica 0:  %s\nreplica %d: %s", li, log, want, ri, got))
+				break
+			}
+		}
+	}
+}
+
+// sortedAff: the rules of an "A r1 | r2 E n" observation in sorted order (a removal may report in listing order)
+func sortedAff(obs string) string {
+	body := strings.TrimSuffix(strings.TrimPrefix(obs, "A "), " E 0")
+	parts := strings.Split(body, " | ")
+	sort.Strings(parts)
+	return strings.Join(parts, " | ")
 }
